@@ -51,42 +51,62 @@ impl Model for M {
         }
     }
     fn properties(&self) -> Vec<Property<Self>> {
+        // Only the cheap invariants live inside the search (stateright evaluates properties in blocks of 1500 states, so a
+        // path-dependent implementation - whose graph never closes - must fail fast). When they hold, the reachable states are
+        // exactly {(w, expected(w)) : w in V^L}; the expensive invariants are then evaluated on each of those states (heavy()).
         vec![
             Property::always("update succeeds for every in-range position", |_m: &M, s: &St| s.broken.is_none()),
-            Property::always("current signature verifies for the current vector", |m: &M, s: &St| s.broken.is_some() || z(m.suite).verify(&m.key.pk, &s.sig, oh(&m.header), Some(&m.msgs(&s.vec))).is_ok()),
             Property::always("current signature equals B(vector)/(sk+e) with the original e (hence path independent)", |m: &M, s: &St| s.broken.is_some() || s.sig == m.expected(&s.vec)),
-            Property::always("current signature verifies for no other vector over V^L", |m: &M, s: &St| {
-                if s.broken.is_some() { return true; }
-                let n = m.values.len();
-                for code in 0..n.pow(m.l as u32) { let w: Vec<u8> = (0..m.l).map(|i| ((code / n.pow(i as u32)) % n) as u8).collect(); if w != s.vec && z(m.suite).verify(&m.key.pk, &s.sig, oh(&m.header), Some(&m.msgs(&w))).is_ok() { return false; } }
-                true
-            }),
-            Property::always("out-of-range positions are refused", |m: &M, s: &St| {
-                if s.broken.is_some() { return true; }
-                [m.l, m.l + 1, 1usize << 32, usize::MAX].iter().all(|&i| matches!(z(m.suite).update_signature(&m.key.sk, &s.sig, &m.values[0], &m.values[1], i, m.l), O::Err(_)))
-            }),
-            Property::always("an update stating a wrong old value never verifies for the intended new vector", |m: &M, s: &St| {
-                if s.broken.is_some() { return true; }
-                for i in 0..m.l { for wrong in 0..m.values.len() as u8 { if wrong == s.vec[i] { continue; } for newv in 0..m.values.len() as u8 {
-                    if let O::Ok(sig) = z(m.suite).update_signature(&m.key.sk, &s.sig, &m.values[wrong as usize], &m.values[newv as usize], i, m.l) {
-                        let mut w = s.vec.clone(); w[i] = newv;
-                        if z(m.suite).verify(&m.key.pk, &sig, oh(&m.header), Some(&m.msgs(&w))).is_ok() { return false; }
-                    }
-                } } }
-                true
-            }),
         ]
+    }
+}
+
+impl M {
+    /// the expensive invariants on one reachable state; returns the names of the violated ones
+    fn heavy(&self, s: &St) -> Vec<&'static str> {
+        let m = self;
+        let mut bad = Vec::new();
+        if !z(m.suite).verify(&m.key.pk, &s.sig, oh(&m.header), Some(&m.msgs(&s.vec))).is_ok() { bad.push("current signature verifies for the current vector"); }
+        let n = m.values.len();
+        for code in 0..n.pow(m.l as u32) { let w: Vec<u8> = (0..m.l).map(|i| ((code / n.pow(i as u32)) % n) as u8).collect(); if w != s.vec && z(m.suite).verify(&m.key.pk, &s.sig, oh(&m.header), Some(&m.msgs(&w))).is_ok() { bad.push("current signature verifies for no other vector over V^L"); break; } }
+        if ![m.l, m.l + 1, 1usize << 32, usize::MAX].iter().all(|&i| matches!(z(m.suite).update_signature(&m.key.sk, &s.sig, &m.values[0], &m.values[1], i, m.l), O::Err(_))) { bad.push("out-of-range positions are refused"); }
+        'outer: for i in 0..m.l { for wrong in 0..m.values.len() as u8 { if wrong == s.vec[i] { continue; } for newv in 0..m.values.len() as u8 {
+            if let O::Ok(sig) = z(m.suite).update_signature(&m.key.sk, &s.sig, &m.values[wrong as usize], &m.values[newv as usize], i, m.l) {
+                let mut w = s.vec.clone(); w[i] = newv;
+                if z(m.suite).verify(&m.key.pk, &sig, oh(&m.header), Some(&m.msgs(&w))).is_ok() { bad.push("an update stating a wrong old value never verifies for the intended new vector"); break 'outer; }
+            }
+        } } }
+        bad
     }
 }
 
 pub fn run(env: &Env) {
     let seed = env.ctx.seed;
-    env.ctx.set_rule("stateright BFS to fixpoint over the real update_signature: state = (message vector in V^L, signature bytes), |V| = 3 (empty, 1 byte, 300 bytes), actions = update(i, v) for every i < L and v in V (includes no-op updates and updates to a value used elsewhere); L in {1,2,3} (thorough + 4), both suites, header in {none, 16B}; six invariants on every state: update succeeds; verify(sig, vector) = Ok; sig = reference formula B(vector)/(sk+e) with the original e (path independence); verify(sig, w) = Err for every other w in V^L; positions L, L+1, 2^32, usize::MAX refused; wrong-old-value updates never verify for the intended vector. The graph closes at |V|^L states, so histories of EVERY length are covered; plus one explicit 32-step chain per configuration, plus ALL ordered triples of updates over {suite} x {position} interleaved on one thread, each compared with the reference formula. transitions = states x L x |V| real update calls (plus the calls made by the invariants).");
+    env.ctx.set_rule("stateright BFS to fixpoint over the real update_signature: state = (message vector in V^L, signature bytes), |V| = 3 (empty, 1 byte, 300 bytes), actions = update(i, v) for every i < L and v in V (includes no-op updates and updates to a value used elsewhere); L in {1,2,3} (thorough + 4), both suites, header in {none, 16B}; invariants inside the search on every state: update succeeds; sig = reference formula B(vector)/(sk+e) with the original e (path independence, hence exactly |V|^L states); then on each of the |V|^L reachable states: verify(sig, vector) = Ok; verify(sig, w) = Err for every other w in V^L; positions L, L+1, 2^32, usize::MAX refused; wrong-old-value updates never verify for the intended vector. The graph closes at |V|^L states, so histories of EVERY length are covered; plus one explicit 32-step chain per configuration, plus an update at EVERY position of a 260-message signature (thorough: also 66 and 1030 messages), plus ALL ordered triples of updates over {suite} x {position} interleaved on one thread, each compared with the reference formula. transitions = states x L x |V| real update calls (plus the calls made by the invariants).");
     env.ctx.assume("stateright 0.31 explicit-state checker; the transition function is the real (deterministic) update_signature");
     let values: Vec<Vec<u8>> = vec![vec![], vec![0x01], mccore::fill(seed, "c12-long", 300)];
     let maxl = if env.thorough() { 4 } else { 3 };
     let mut jobs: Vec<(String, Suite, String, Option<Vec<u8>>, usize)> = Vec::new();
     for s in suites() { for (hn, h) in [hdr_small(seed)[0].clone(), hdr_small(seed)[2].clone()] { for l in (1..=maxl).rev() { jobs.push((format!("{}/h={}/L{}", s.name(), hn, l), s, hn.clone(), h.clone(), l)); } } }
+    // long vectors: an update at EVERY position of a 260-message signature (thorough: also 66 and 1030), compared with the reference formula
+    // and verified: position-dependent slips in the generator selection (a counter truncated to one octet, a window boundary)
+    {
+        let ls: Vec<usize> = if env.thorough() { vec![66, 260, 1030] } else { vec![260] };
+        let mut jobs: Vec<(Suite, usize, usize)> = Vec::new();
+        for s in suites() { for &l in &ls { for i in 0..l { if l > 300 && !(i % 64 == 0 || i % 64 == 63 || i + 3 >= l || (250..=260).contains(&i) || (508..=516).contains(&i)) { continue; } jobs.push((s, l, i)); } } }
+        let sigs: Vec<(Suite, usize, Key, Vec<Vec<u8>>, Vec<u8>)> = suites().into_iter().flat_map(|s| ls.iter().map(move |&l| (s, l))).map(|(s, l)| { let k = key(s, "k1"); let m = distinct_msgs(seed, "c12-long", l); let sk = refbbs::octets_to_scalar_strict(&k.sk).unwrap(); let sig = refbbs::sign(s, &sk, &k.pk.clone().try_into().unwrap(), b"long", &m).unwrap().to_vec(); (s, l, k, m, sig) }).collect();
+        mccore::par_for(&jobs, |_, &(s, l, i)| {
+            let root = format!("{}/long/L{}/position{}", s.name(), l, i);
+            if !env.want(&root) || env.ctx.out_of_time() { return; }
+            let (_, _, k, m, sig) = sigs.iter().find(|x| x.0 == s && x.1 == l).unwrap();
+            env.ctx.state(&[root.as_bytes()]);
+            let got = z(s).update_signature(&k.sk, sig, &m[i], b"updated value", i, l); env.ctx.step();
+            let want = refbbs::update_signature(s, &refbbs::octets_to_scalar_strict(&k.sk).unwrap(), sig, &m[i], b"updated value", i, l).map(|x| x.to_vec());
+            if got.clone().ok() != want.clone().ok() { env.ctx.violation("C12:long-vector:differs-from-reference-formula", &format!("update at position {} of {} messages differs from B(vector)/(sk+e): {}", i, l, got.describe()), env.case(&root, json!({"suite": s.name(), "L": l, "position": i}))); }
+            else if i % 37 == 0 || i + 2 >= l || (252..=257).contains(&i) { let mut m2 = m.clone(); m2[i] = b"updated value".to_vec(); if let O::Ok(ns) = &got { if !z(s).verify(&k.pk, ns, Some(b"long"), Some(&m2)).is_ok() { env.ctx.violation("C12:long-vector:does-not-verify", &format!("updated signature (position {} of {}) does not verify for the current vector", i, l), env.case(&root, json!({"suite": s.name(), "L": l, "position": i}))); } env.ctx.step(); } }
+            env.ctx.class("long-vector"); env.ctx.trace();
+        });
+    }
     // interleavings across configurations on ONE thread: all ordered triples over {suite} x {position}: hidden per-thread
     // state shared between ciphersuites or positions (a generator memo keyed on the position only) shows here
     if env.want("interleaved") {
@@ -115,9 +135,10 @@ pub fn run(env: &Env) {
         let init_msgs: Vec<Vec<u8>> = vec![values[0].clone(); l];
         let init_sig = match z(s).sign(&k.sk, &k.pk, oh(&h), Some(&init_msgs)) { O::Ok(x) => x, o => { env.ctx.violation("C12:base-sign-failed", &o.describe(), env.case(id, json!({}))); return; } };
         let model = M { suite: s, key: k.clone(), header: h.clone(), values: values.clone(), l, init_sig };
-        let checker = model.checker().threads(2).spawn_bfs().join();
-        let unique = checker.unique_state_count();
         let expected_states = values.len().pow(l as u32);
+        // a correct implementation closes the graph at |V|^L states; a path-dependent one never closes it: bound the search
+        let checker = model.checker().threads(2).finish_when(stateright::HasDiscoveries::AnyFailures).target_state_count(8 * expected_states + 64).timeout(std::time::Duration::from_secs(if env.thorough() { 1800 } else { 240 })).spawn_bfs().join();
+        let unique = checker.unique_state_count();
         for i in 0..unique { env.ctx.state(&[id.as_bytes(), &(i as u32).to_be_bytes()]); }
         env.ctx.steps((unique * l * values.len()) as u64);
         for _ in 0..unique { env.ctx.trace(); }
@@ -128,7 +149,19 @@ pub fn run(env: &Env) {
             let last = path.last_state().clone();
             env.ctx.violation(&format!("C12:{}", name), &format!("{} violated after {:?}{}", name, acts, last.broken.map(|b| format!(" ({})", b)).unwrap_or_default()), env.case(id, json!({"suite": s.name(), "header": hn, "L": l, "updates": acts, "vector": last.vec})));
         }
-        if unique != expected_states && checker.discoveries().is_empty() {
+        if checker.discoveries().is_empty() && unique == expected_states {
+            let model = checker.model();
+            let n = values.len();
+            for code in 0..n.pow(l as u32) {
+                let w: Vec<u8> = (0..l).map(|i| ((code / n.pow(i as u32)) % n) as u8).collect();
+                let st = St { sig: model.expected(&w), vec: w.clone(), broken: None };
+                env.ctx.steps((n.pow(l as u32) + 4 + l * n * (n - 1)) as u64);
+                for name in model.heavy(&st) { env.ctx.violation(&format!("C12:{}", name), &format!("{} violated in the state with vector {:?} (reachable by updating the differing positions one by one)", name, w), env.case(id, json!({"suite": s.name(), "header": hn, "L": l, "vector": w}))); }
+            }
+        }
+        if unique > expected_states {
+            env.ctx.violation("C12:state-count:graph-does-not-close", &format!("update graph has at least {} states (search bounded), a path-independent implementation has exactly {}: the same vector is reached with different signatures", unique, expected_states), env.case(id, json!({"unique": unique, "expected": expected_states})));
+        } else if unique != expected_states && checker.discoveries().is_empty() {
             env.ctx.violation("C12:state-count", &format!("update graph has {} states, expected {}", unique, expected_states), env.case(id, json!({"unique": unique})));
         }
         env.ctx.class(&format!("fixpoint:L{}", l));
@@ -147,6 +180,6 @@ pub fn run(env: &Env) {
             }
         }
         env.ctx.state(&[id.as_bytes(), b"chain32"]); env.ctx.trace();
-        if l == 2 { env.ctx.sample(json!({"root": id, "chain_prefix": chain[..4].to_vec(), "fixpoint_states": unique})); }
+        if l == 2 { env.ctx.sample(json!({"root": id, "chain_prefix": chain.iter().take(4).cloned().collect::<Vec<_>>(), "fixpoint_states": unique})); }
     });
 }
